@@ -74,10 +74,10 @@ Proof.
                             | s pre issuer more w Hp Hr Hct (Hpo & Hsc & Hnp & Hns) Ht Hsame Hok1 Hok2 Hok3];
     unfold server_entry; rewrite Hp; cbn [negb].
   - reflexivity.
-  - rewrite Hr, Hnct, Ht.
+  - rewrite Hr, Hnct, Ht. unfold precert_tbs, entry_tbs_direct in *.
     rewrite (precert_route_direct (w_head w) (w_a w) (w_b w) (w_a' w) (w_b' w) (w_poison w) Hpo Hsame Hnp Hok1 Hok3).
     reflexivity.
-  - rewrite Hr, Hct, Ht.
+  - rewrite Hr, Hct, Ht. unfold precert_tbs in *.
     rewrite (precert_route_preissuer (w_head w) (w_a' w) (w_b' w) (w_poison w) (c_pi pre) Hpo Hnp Hct Hok1 Hok2).
     unfold entry_tbs_pre, final_head. rewrite Hsame. reflexivity.
 Qed.
@@ -181,8 +181,7 @@ Lemma add_chain_issued st s st' r :
 Proof.
   intros Hwf. unfold add_chain.
   set (ms := time_millis (s_now s)).
-  destruct (leaf_from_chain H s ms) as [mleaf| | | |] eqn:El;
-    try (destruct 1; discriminate); try (cbn; intros E; inversion E; fail).
+  destruct (leaf_from_chain H s ms) as [mleaf| | | |] eqn:El.
   2-5: cbn; intros E; inversion E.
   destruct (leaf_from_chain_ok _ _ _ El) as (e & Hse & ->).
   destruct (build_log_leaf H s (embed_leaf ms e [])) as [leaf| | | |] eqn:Eb.
@@ -193,7 +192,7 @@ Proof.
   (* the returned leaf is well formed *)
   assert (Hret : wf_leaf ret).
   { destruct (queue_leaf_cases (st_store st) (built_leaf s e)) as [[_ Hq]|[old [Hf Hq]]]; rewrite Hq in Eq; inversion Eq; subst.
-    - exists ms, e. repeat split; auto using ts_ok_millis.
+    - exists ms, e. repeat split; auto. apply ts_ok_millis.
     - exact (Hwf _ _ Hf). }
   destruct Hret as (ts0 & e0 & Hts0 & He0 & Hv).
   rewrite Hv, (leaf_decodes ts0 e0 [] Hts0 He0 nil_ext_ok).
@@ -300,7 +299,7 @@ Proof.
   destruct (queue_leaf (st_store st) (built_leaf s e)) as [[store' ret] dup] eqn:Eq.
   assert (Hret : wf_leaf ret).
   { destruct (queue_leaf_cases (st_store st) (built_leaf s e)) as [[_ Hq]|[old [Hf Hq]]]; rewrite Hq in Eq; inversion Eq; subst.
-    - exists ms, e. repeat split; auto using ts_ok_millis.
+    - exists ms, e. repeat split; auto. apply ts_ok_millis.
     - exact (Hwf _ _ Hf). }
   destruct Hret as (ts0 & e0 & Hts0 & He0 & Hv).
   rewrite Hv, (leaf_decodes ts0 e0 [] Hts0 He0 nil_ext_ok).
